@@ -130,3 +130,40 @@ class Reader:
         sf, start, size = self.locate(chunk_id)
         return _decode(sf.buf[start:start + size], self.spec["data_encoding"], self.notes,
                        f"chunk {chunk_id}")
+
+
+def rewrite_interleaved(path, spec):
+    """Rewrite one shard file in ANOTHER layout the specification allows, the one other
+    writers of the format produce: for each minishard (here in descending order, each
+    preceded by a few unused bytes) its chunk data followed directly by its own minishard
+    index - instead of all data first and all indices, in minishard order, at the end.
+    Chunk payloads are copied as they are; only positions change."""
+    spec = dict({"minishard_index_encoding": "raw", "data_encoding": "raw"}, **spec)
+    sf = ShardFile(path, spec, set())
+    mb = spec["minishard_bits"]
+    words = list(struct.unpack(f"<{2 * (1 << mb)}Q", sf.buf[:sf.index_len]))
+    out = bytearray(sf.index_len)
+    new_words = [0] * (2 * (1 << mb))
+    for n in sorted(sf.minishards, reverse=True):
+        entries = sf.minishards[n]
+        out += b"\xee" * 8                       # unused bytes (gaps are allowed)
+        ids, offs, sizes = [], [], []
+        prev_id = 0
+        first = True
+        for cid, start, size in entries:
+            ids.append((cid - prev_id) & 0xFFFFFFFFFFFFFFFF)
+            prev_id = cid
+            offs.append(len(out) - sf.index_len if first else 0)
+            first = False
+            sizes.append(size)
+            out += sf.buf[start:start + size]
+        raw = struct.pack(f"<{3 * len(entries)}Q", *ids, *offs, *sizes)
+        old = sf.buf[sf.index_len + words[2 * n]:sf.index_len + words[2 * n + 1]]
+        if spec["minishard_index_encoding"] == "gzip":
+            raw = gzip.compress(raw) if old[:2] == b"\x1f\x8b" else zlib.compress(raw)
+        new_words[2 * n] = len(out) - sf.index_len
+        out += raw
+        new_words[2 * n + 1] = len(out) - sf.index_len
+    out[:sf.index_len] = struct.pack(f"<{2 * (1 << mb)}Q", *new_words)
+    with open(path, "wb") as f:
+        f.write(bytes(out))
